@@ -1094,6 +1094,10 @@ impl State {
                 let idx = *i;
                 let val = self.pop_data()?;
                 let frame = self.top_frame()?;
+                // slots of declarations skipped by an untaken branch stay nil
+                while frame.locals.len() < idx {
+                    frame.locals.push_back_mut(NIL);
+                }
                 if idx < frame.locals.len() {
                     frame.locals[idx] = val;
                 } else {
